@@ -11,6 +11,7 @@ import Proofs.CodecProofs
 import Proofs.TmdBits
 import Proofs.NandProofs
 import Proofs.ConfigProofs
+import Proofs.SaveReopen
 namespace Pyctr.C20
 open Pyctr
 
@@ -66,6 +67,13 @@ theorem C20_difi (x : Save.Difi) (b : Bytes) (h : x.toBytes = some b) : Save.Dif
 theorem C20_ivfc (x : Save.Ivfc) (b : Bytes) (h : x.toBytes = some b)
     (hs : x.lv1.sane = true ∧ x.lv2.sane = true ∧ x.lv3.sane = true ∧ x.lv4.sane = true) : Save.Ivfc.fromBytes b = .ok x :=
   Save.ivfc_roundtrip x b h hs
+/-- the partition descriptor as a whole (DIFI + IVFC + DPFS + master hashes at the offsets the DIFI header names, in a
+    zero-filled array of the descriptor's size): `load_partdesc(partdesc_to_bytes(x)) = x` when the four fields lie inside
+    and do not overlap (decidable; evaluated on every generated save image) -/
+theorem C20_partdesc (x : Save.PartDesc) (size : Nat) (pd : Bytes) (wf : Save.descWFB x size = true)
+    (h : Save.partdescToBytes x size = some pd) : pd.length = size ∧ Save.loadPartdesc pd = .ok x :=
+  Save.partdesc_roundtrip x size pd (Save.descWF_of_b x size wf) h
+
 theorem C20_dpfs (x : Save.Dpfs) (b : Bytes) (h : x.toBytes = some b)
     (hs : x.lv1.sane = true ∧ x.lv2.sane = true ∧ x.lv3.sane = true) : Save.Dpfs.fromBytes b = .ok x :=
   Save.dpfs_roundtrip x b h hs
